@@ -1,6 +1,7 @@
 """C15 check configuration (see lib/props.py for the field meanings)."""
 
 PROP = {
+    "level_text_more": 'Lists are also added through the API in the refresh histories (which contain restarts): the new list must get an identifier, and so a file, of its own; TestVFC15RefreshVsRebuildInProgress runs the real worker goroutine: a forced refresh stores a small version 2 while the rebuild queued by the previous admin call is still compiling a list of 150000-300000 rules, and after all builds have ended version 2 must be in force.',
     "pkg": "internal/filtering",
     "files": ["filtering/c15_model_test.go", "filtering/c15_parser_test.go", "filtering/c15_refresh_test.go", "filtering/c15_admin_test.go", "filtering/c15_rebuild_test.go",
               "filtering/c15_regress_test.go"],
